@@ -104,6 +104,8 @@ class Translator:
         self.narrow: dict[str, tuple[str, str]] = {}      # expressions known not to be None at this point (ast.dump -> value, type)
         self.records: set[str] = set()                    # record types whose field list was confirmed in the source
         self.search_ok = False                            # SearchType members confirmed in the source
+        self.exc_classes: dict[str, str] = {}             # exception classes of the translated modules -> the built-in they derive from
+        self.post_init: set[str] = set()                  # record types whose class defines __post_init__
         self.fn_tables: dict[str, tuple] = {}             # module-level dictionaries of functions: name -> (coq name, key type, parameter types, return type)
         self.ctors: set[str] = set()                      # dataclass constructors whose field order was confirmed in the source
 
@@ -289,6 +291,11 @@ class Translator:
                         terms.append(t if isinstance(op, ast.Eq) else f'(negb {t})')
                         left = right
                         continue
+                    if {ta, tb} == {'int', 'vstat'} and isinstance(op, (ast.Eq, ast.NotEq)):
+                        # an int and a dataclass instance never compare equal (the dataclass __eq__ answers NotImplemented for another class)
+                        terms.append('false' if isinstance(op, ast.Eq) else 'true')
+                        left = right
+                        continue
                     if ta != 'int' or tb != 'int':
                         raise TransError('comparison of non-integers')
                     sym = {ast.Lt: ('<?', False), ast.LtE: ('<=?', False), ast.Gt: ('<?', True), ast.GtE: ('<=?', True),
@@ -356,7 +363,7 @@ class Translator:
             raise TransError(f'attribute {t}.{e.attr}')
         if isinstance(e, ast.Call):
             f = e.func
-            if e.keywords and not (isinstance(f, ast.Attribute) or (isinstance(f, ast.Name) and f.id in self.fns)):
+            if e.keywords and not (isinstance(f, ast.Attribute) or (isinstance(f, ast.Name) and (f.id in self.fns or f.id == 'sorted'))):
                 raise TransError('keyword arguments')
             if any(k.arg is None for k in e.keywords):
                 raise TransError('**kwargs')
@@ -368,6 +375,37 @@ class Translator:
                 if len(a3) == 2:
                     return f'(py_range {a3[0][0]} {a3[1][0]} 1)', 'list:int'
                 return f'(py_range {a3[0][0]} {a3[1][0]} {a3[2][0]})', 'list:int'
+            if isinstance(f, ast.Name) and f.id == 'sorted' and len(e.args) == 1 and len(e.keywords) == 1 and e.keywords[0].arg == 'key' \
+                    and ast.unparse(e.keywords[0].value) == 'lambda x: x.pos':
+                v, t = self.expr(e.args[0], env, binds)
+                if t != 'list:vstat':
+                    raise TransError('sorted by position of something other than variant statistics')
+                return f'(sort_by_pos {v})', t       # a stable sort by the key (Model/Gpo.v)
+            if isinstance(f, ast.Name) and f.id == 'any' and len(e.args) == 1 and isinstance(e.args[0], ast.GeneratorExp) and not e.keywords:
+                g = e.args[0]
+                if len(g.generators) != 1 or g.generators[0].ifs or g.generators[0].is_async or not isinstance(g.generators[0].target, ast.Name):
+                    raise TransError('any over a generator with filters or several loops')
+                it = g.generators[0].iter
+                if isinstance(it, ast.Call) and isinstance(it.func, ast.Name) and it.func.id == 'range' and not it.keywords and len(it.args) in (1, 2):
+                    a = [self.expr(x, env, binds) for x in it.args]
+                    if any(t != 'int' for _, t in a):
+                        raise TransError('range over non-integers')
+                    lst, elem = (f'(py_range 0 {a[0][0]} 1)' if len(a) == 1 else f'(py_range {a[0][0]} {a[1][0]} 1)'), 'int'
+                else:
+                    lst, tl = self.expr(it, env, binds)
+                    if not tl.startswith('list:') or tl == 'list:?':
+                        raise TransError('any over a non-list')
+                    elem = tl[5:]
+                var = g.generators[0].target.id
+                env2 = dict(env)
+                env2[var] = (cname(var), elem)
+                inner = []
+                v, t = self.expr(g.elt, env2, inner)
+                if t != 'bool':
+                    raise TransError('any of non-booleans')
+                x = self.tmp()
+                binds.append((x, f'any_m (fun {cname(var)} => {self.wrap(inner, "Ok " + v)}) {lst}'))      # stops at the first true, as any() does
+                return x, 'bool'
             if isinstance(f, ast.Name) and f.id == 'sum' and len(e.args) == 1 and isinstance(e.args[0], ast.GeneratorExp):
                 g = e.args[0]
                 if len(g.generators) != 1 or g.generators[0].ifs or g.generators[0].is_async or not isinstance(g.generators[0].target, ast.Name):
@@ -414,6 +452,18 @@ class Translator:
                     return f'(rlen {args[0][0]})', 'int'
                 if f.id == 'len' and len(args) == 1 and args[0][1] == 'exon':
                     return f'(x_len {args[0][0]})', 'int'
+                if f.id == 'cls' and self.cur_self in self.records and not e.keywords:
+                    cname_, fields = next((cn, fl) for cn, (tag, fl) in RECORD_FIELDS.items() if tag == self.cur_self)
+                    if [t for _, t in args] != [ANNOT[a_] for _, a_ in fields]:
+                        raise TransError(f'constructor of {cname_}: argument types {[t for _, t in args]}')
+                    rec = '(' + {'kgpo': 'mkKGpo'}[self.cur_self] + ' ' + ' '.join(a for a, _ in args) + ')'
+                    if self.cur_self in self.post_init:
+                        pi = self.fns.get(f'{self.cur_self}.__post_init__')
+                        if pi is None:
+                            raise TransError(f'{cname_}.__post_init__ is not translated')
+                        x = self.tmp()
+                        binds.append((x, f'{pi.coq_name} {rec}'))
+                    return rec, self.cur_self
                 if (f.id == 'UIntRange' or (f.id == 'cls' and self.cur_self == 'range')) and len(args) == 2:
                     x = self.tmp()
                     binds.append((x, f'mk_range {args[0][0]} {args[1][0]}'))
@@ -535,6 +585,8 @@ class Translator:
     def raises(self, st):
         if isinstance(st, ast.Raise) and isinstance(st.exc, ast.Call) and isinstance(st.exc.func, ast.Name) and st.exc.func.id in ERR:
             return ERR[st.exc.func.id]
+        if isinstance(st, ast.Raise) and isinstance(st.exc, ast.Call) and isinstance(st.exc.func, ast.Name) and st.exc.func.id in self.exc_classes:
+            return self.exc_classes[st.exc.func.id]      # a subclass of a built-in exception defined in the translated modules
         if isinstance(st, ast.Raise) and isinstance(st.exc, ast.Name) and st.exc.id in ERR:      # raise SomeError (the class itself)
             return ERR[st.exc.id]
         return None
@@ -663,6 +715,17 @@ class Translator:
             return self.wrap(binds, body), tb
         if isinstance(st, ast.For):
             return self.for_loop(st, rest, env)
+        if isinstance(st, ast.Assign) and len(st.targets) == 1 and isinstance(st.targets[0], ast.Tuple) and all(isinstance(x, ast.Name) for x in st.targets[0].elts):
+            binds = []
+            v, t = self.expr(st.value, env, binds)
+            names = [x.id for x in st.targets[0].elts]
+            if not t.startswith('tuple:') or len(t[6:].split(',')) != len(names) or len(set(names)) != len(names):
+                raise TransError('tuple assignment')
+            env2 = dict(env)
+            for n_, tn in zip(names, t[6:].split(',')):
+                env2[n_] = (cname(n_), tn)
+            body, tb = self.block(rest, env2)
+            return self.wrap(binds, f"let '({', '.join(cname(n_) for n_ in names)}) := {v} in {body}"), tb
         if isinstance(st, ast.Assign) and len(st.targets) == 1 and isinstance(st.targets[0], ast.Name):
             binds = []
             v, t = self.expr(st.value, env, binds)
@@ -847,6 +910,8 @@ class Translator:
         if a == b:
             return a
         for x, y in ((a, b), (b, a)):
+            if x == 'list:?' and y.startswith('list:'):
+                return y
             if x == 'option' and y in ('range', 'int'):
                 return 'option:' + y
             if x.startswith('option:') and y in (x[7:], 'option'):
@@ -877,6 +942,10 @@ class Translator:
                     if fields != RECORD_FIELDS[c.name][1] or not any('dataclass' in ast.unparse(d) for d in c.decorator_list):
                         raise TransError(f'record {c.name}: fields {fields}')
                     self.records.add(RECORD_FIELDS[c.name][0])
+                if isinstance(c, ast.ClassDef) and len(c.bases) == 1 and isinstance(c.bases[0], ast.Name) and c.bases[0].id in ('ValueError', 'AssertionError', 'RuntimeError'):
+                    self.exc_classes[c.name] = ERR[c.bases[0].id]
+                if isinstance(c, ast.ClassDef) and c.name in RECORD_FIELDS and any(isinstance(f_, ast.FunctionDef) and f_.name == '__post_init__' for f_ in c.body):
+                    self.post_init.add(RECORD_FIELDS[c.name][0])
                 if isinstance(c, ast.ClassDef) and c.name == 'SearchType':
                     vals = {st.targets[0].id: st.value.value for st in c.body if isinstance(st, ast.Assign) and len(st.targets) == 1
                             and isinstance(st.targets[0], ast.Name) and isinstance(st.value, ast.Constant)}
